@@ -1,3 +1,4 @@
+import AL.Model.Hex
 /-
   Model of error.go (C16): the one-line header `file:line:col: message [kind]`, the shipped
   problem-matcher pattern as an explicit leftmost / lazy backtracking search (plain output, i.e. the
@@ -113,5 +114,22 @@ def snippetLine (src : List Nat) (line col : Nat) : Option (List Nat) :=
 on a byte prefix (parameter). The caret is printed only for `col ≥ 1`. -/
 def caretColumn (width : List Nat → Nat) (l : List Nat) (col : Nat) : Option Nat :=
   if col = 0 then none else some (width (l.take (col - 1)))
+
+/-- the runes after the column that the underline covers: up to the first space, tab, CR, LF or the end of the line
+(`ReadRune` on invalid UTF-8 yields U+FFFD, one byte) -/
+def underlineWidth (runeWidth : Nat → Nat) : List AL.Sym → Nat
+  | [] => 0
+  | s :: rest =>
+    if s.r = 32 || s.r = 9 || s.r = 10 || s.r = 13 then 0
+    else runeWidth s.r + underlineWidth runeWidth rest
+
+/-- `(*Error).getIndicator`: `strWidth` is go-runewidth's `StringWidth` on the bytes before the column, `runeWidth` its
+`RuneWidth`; the caller guarantees `col - 1 ≤ len(line)` -/
+def indicator (strWidth : List Nat → Nat) (runeWidth : Nat → Nat) (l : List Nat) (col : Nat) : List Char :=
+  if col = 0 then []
+  else
+    let start := col - 1
+    let uw := underlineWidth runeWidth (AL.decodeUtf8 (l.drop start))
+    List.replicate (strWidth (l.take start)) ' ' ++ ['^'] ++ List.replicate (uw - 1) '~'
 
 end AL.Render
